@@ -465,6 +465,9 @@ def run(ctx):
     rule_string(ctx)
     from rules import c01
     n = c01.index_bound_sites(ctx, "C16/string-index-bound", only_fn="mem_writer::write_string_to_location")
+    # the small accessors and pass-through wrappers the rules above look through by name return what their names say (rules/accessors.py)
+    from rules import accessors as _acc
+    _acc.rule_accessors(ctx, "C16")
 
 
 def thorough(ctx):
